@@ -701,7 +701,7 @@ func init() {
 	// debugging aid: `check --sub threshold` runs all threshold sweeps of this build once
 	SubModes["threshold"] = func(args []string) *SubResult {
 		r := &SubResult{}
-		for _, sw := range []func() (int, int, []*drv.Violation){wideSweep, manyTargetsSweep, manyArchetypesSweep, manyObserversSweep,
+		for _, sw := range []func() (int, int, []*drv.Violation){wideSweep, manyTargetsSweep, manyArchetypesSweep, manyObserversSweep, nestedTwinSweep,
 			func() (int, int, []*drv.Violation) { return runCases(eventTypesCase) }} {
 			c, s, f := sw()
 			r.Cases += c
